@@ -197,6 +197,74 @@ func runC18(c *Ctx) {
 		c.R.Info("R18.1", "languages without a comment style", langPkg, strings.Join(noStyle, ","))
 	}
 
+	// R18.15 every language that a file name can be classified as has comment delimiters: the constants that
+	// ClassifyLanguage returns (directly, or as the values of the extension table it looks the extension up in) are not
+	// left with the empty style - a file of such a language would be parsed into no comments at all, which is worse than
+	// an unknown extension (whose whole content is looked at)
+	if cl := p.Func(langPkg, "ClassifyLanguage"); cl != nil && len(cl.Blocks) > 0 {
+		returned := map[string]bool{}
+		addConst := func(cst *ssa.Const) {
+			if cst == nil || cst.Value == nil || !types.Identical(cst.Type(), langT) {
+				return
+			}
+			for _, l := range langs {
+				if l.Val().ExactString() == cst.Value.ExactString() {
+					returned[l.Name()] = true
+				}
+			}
+		}
+		for _, b := range cl.Blocks {
+			ret, ok := b.Instrs[len(b.Instrs)-1].(*ssa.Return)
+			if !ok || len(ret.Results) != 1 {
+				continue
+			}
+			switch x := ret.Results[0].(type) {
+			case *ssa.Const:
+				addConst(x)
+			default:
+				// a value looked up in a package-level table: all values of the table
+				var lk *ssa.Lookup
+				if ex, isEx := x.(*ssa.Extract); isEx {
+					lk, _ = ex.Tuple.(*ssa.Lookup)
+				} else {
+					lk, _ = x.(*ssa.Lookup)
+				}
+				if lk != nil {
+					if ld, isLd := lk.X.(*ssa.UnOp); isLd {
+						if g, isG := ld.X.(*ssa.Global); isG {
+							if sp := p.SSAPkgs[langPkg]; sp != nil && sp.Func("init") != nil {
+								for _, ib := range sp.Func("init").Blocks {
+									for _, in := range ib.Instrs {
+										if st, isSt := in.(*ssa.Store); isSt && st.Addr == ssa.Value(g) {
+											if mm, isMM := st.Val.(*ssa.MakeMap); isMM {
+												for _, r := range *mm.Referrers() {
+													if mu, isMU := r.(*ssa.MapUpdate); isMU {
+														cst, _ := mu.Value.(*ssa.Const)
+														addConst(cst)
+													}
+												}
+											}
+										}
+									}
+								}
+							}
+						}
+					}
+				}
+			}
+		}
+		var bare []string
+		for l := range returned {
+			if l != "Unknown" && sl[l] == "" && ms[l] == "" {
+				bare = append(bare, l)
+			}
+		}
+		sort.Strings(bare)
+		c.R.Check(len(bare) == 0 && len(returned) >= 10, "R18.15", "every language ClassifyLanguage can return has comment delimiters", p.Pos(cl.Pos()),
+			fmt.Sprintf("%d languages returned, each with a single-line or multi-line start delimiter", len(returned)),
+			"ClassifyLanguage can return "+strings.Join(bare, ", ")+", for which no comment delimiter is defined: Parse finds no comment in such a file and the tool classifies nothing for it")
+	}
+
 	// R18.2 pairing for every language
 	bad := 0
 	for _, l := range langs {
